@@ -820,7 +820,7 @@ func (m *LinearBlockMetadata) cleanupAfterFree() {
 
 	// Find more null items at the beginning of the second vector
 	removeFromBeginning := 0
-	for m.secondNullItemsCount > 0 && secondVector[0].Type == 0 {
+	for m.secondNullItemsCount > 0 && secondVector[removeFromBeginning].Type == 0 {
 		m.secondNullItemsCount--
 		removeFromBeginning++
 	}
